@@ -27,10 +27,11 @@ def _conds(tier):
             c(cmd, clock="float", vmax=3, timeout=2400)
             c(cmd, clock="duration", vmax=2, timeout=2400)
         for tup in itertools.product("012345", repeat=2):
-            c("".join(tup), vmax=3, warm=-1 if "2" in tup else 0, timeout=2400)
-            c("".join(tup), kinds="01", parents="-1,0", vmax=2, warm=-1 if "2" in tup else 0, timeout=2400)
-        for tup in itertools.product("0123", repeat=3):
-            c("".join(tup), vmax=2, warm=-1 if "2" in tup else 0, timeout=3000)
+            c("".join(tup), vmax=2, warm=-1 if "2" in tup else 0, timeout=2400)
+        for tup in itertools.product("0123", repeat=2):
+            c("".join(tup), kinds="01", parents="-1,0", vmax=2, warm=1 if "2" in tup else 0, timeout=2400)
+        for cmds in ("012", "103", "221", "302", "230", "013", "320", "131", "200", "022", "313", "101"):
+            c(cmds, vmax=2, warm=1 if "2" in cmds else 0, timeout=3000)
     return conds
 
 
@@ -44,7 +45,7 @@ def run(ctx):
         "segmentation": "S commands over {run_up_to, run_up_to_including, step, start paused by a handler-issued stop, "
                         "run_up_to / run_up_to_including paused by a handler-issued stop}, "
                         "command kinds fixed per condition, arguments symbolic; quick: all 4 single commands and 12 "
-                        "pairs; thorough: all pairs and triples, int/float/Duration clocks",
+                        "pairs; thorough: all pairs over six command kinds, 12 triples, int/float/Duration clocks",
         "program": "2 root events (thorough also a child scheduled by a handler), times 0..vmax, replication end "
                    "1..vmax+1, bounds/pause index 0..vmax+2 (before, at, between, after event times and the end), "
                    "warm-up time symbolic where a step is involved",
